@@ -46,7 +46,8 @@ def run(ctx):
                               "c14_totp_spacing_concurrent", "c14_split_gate_refuted", "c14_config", "c14_old_clamp_refuted",
                               "c14_totp_spacing", "c14_lockout", "c14_lockout_escalates", "c14_fail_count",
                               "c14_totp_per_user", "c14_old_lockout_refuted",
-                              "c14_cleanup_invisible", "c14_streak", "c14_lockout_history", "c14_cleanup_per_user",
+                              "c14_cleanup_invisible", "c14_streak", "c14_lockout_history", "c14_lockout_history_plain", "c14_cleanup_per_user",
+                              "c14_read_source_irrelevant", "c14_read_source_any", "c14_source_is_throttle", "c14_cached_no_write", "c14_cached_lenient_refuted",
                               "c14_purging_cleanup_refuted", "c14_count_bounded", "c14_uint32_exact"])],
         harness=("TestVerif_C14", ["kmd/common.go", "kmd/creds.go", "kmd/consts.go", "kmd/c14.go"] + hookfiles),
         obl=("Obl_C14.v", ["c14_totp_consts", "c14_two_seconds", "c14_uint32_consts"]),
@@ -56,10 +57,12 @@ def run(ctx):
                               ("c14_lookup_mismatches", "failing password backend (always / now and then / on the first lookup): status and number of lookups of every attempt = login_step_tries code_tries on the attempt's answer stream", "CasesC14_lookup.idx"),
                               ("c14_okta_mismatches", "Okta as password backend (real lib/authenticators/okta against a local authn endpoint answering 200 SUCCESS / MFA_REQUIRED / other / undecodable, 401, 403, 429, 5xx): status and number of requests to the endpoint per attempt = login_step_tries code_tries over okta_answer", "CasesC14_okta.idx"),
                               ("c14_handler_mismatches", "measured handler sequence: every window obeys the theorem's inequality; fresh burst and refill after a pause are let through"),
+                              ("c14_totp_src_mismatches", "the same steps with the read source (any attempt may be served from the cache database: remoteDBQueryTimeout = 0 around the call, cache refreshed) and the replay guard: accepted, entry after, remembered and persisted step of the last success = attempt_src on the observed pre-state (a cached attempt writes nothing to the profile, counts and locks like any other)", "CasesC14_totp.idx"),
                               ("c14_totp_mismatches", "validateUserTOTP verdict and rate-limit entry after every attempt, and every entry after every pass of the periodic cleanup, = model with the uint32 counter (simulated time)", "CasesC14_totp.idx")], "CasesC14.idx"),
         trusted=["golang.org/x/time/rate computes in float64; the model is exact and tolerates either verdict within half a nanosecond of refill around the threshold",
                  "time is simulated for validateUserTOTP by shifting the time fields of state.totpLocalRateLimit (the code reads time.Now() itself); comparisons are kept 120 ms off their boundaries",
                  "recording PasswordAuthenticator installed in RuntimeState.passwordChecker stands for the password backend (scripted answer streams: verdict / error); for Okta the real lib/authenticators/okta PasswordAuthenticator talks to a local httptest authn endpoint",
+                 "an attempt 'served from the cache' is made with remoteDBQueryTimeout = 0 and the cache database refreshed from the primary immediately before (a probe LoadUserProfile under the same conditions must say fromCache); a STALE cache is not exercised (C15's subject)",
                  "concurrent one-time-code probe: an evaluation is recognised by the verdict (accepted, or the internal error of a second enabled device whose stored secret cannot be decrypted); a throttled attempt answers a plain refusal"],
         assumptions=["arrival times at the limiter are non-decreasing (time.Now() is read just before the limiter's lock is taken; reordering of concurrent requests by microseconds is not modelled)",
                      ],
